@@ -20,7 +20,9 @@ MUTANTS += [
     ('by_tag keyed by position', [('mininec.Geo_Container.compute_tags', "            self.by_tag [geobj.tag] = geobj", "            self.by_tag [n + 1] = geobj")], ['by_tag']),
     ('sorted descending', [('mininec.Geo_Container.compute_tags', "self.geo.sort (key = lambda geobj: geobj.tag)", "self.geo.sort (key = lambda geobj: geobj.tag, reverse = True)")], ['sorted']),
     ('zero tag accepted', [('mininec.Geo_Container.compute_tags', "                if geobj.tag <= 0:", "                if geobj.tag < 0:")], ['validation']),
+    ('attachments de-duplicated by the row inside the object', [('mininec._Load.add_pulse', "        self.pulses.append (pulse)", "        if pulse.n in [p.n for p in self.pulses]:\n            return\n        self.pulses.append (pulse)")], ['attach']),
 ]
 REFACTORS = [
     ('tag lookup via membership then index', [(M + 'register_source', "            w = self.geo.by_tag.get (geo_tag)\n            if not w:", "            w = None\n            if geo_tag in self.geo.by_tag:\n                w = self.geo.by_tag [geo_tag]\n            if not w:")]),
+    ('attachments de-duplicated by the pulse itself', [('mininec._Load.add_pulse', "        self.pulses.append (pulse)", "        if pulse in self.pulses:\n            return\n        self.pulses.append (pulse)")]),
 ]
